@@ -268,7 +268,8 @@ func (d *f32StringDecoder) FromDom(vp unsafe.Pointer, node Node, ctx *context) e
 	}
 
 	ret, err := ParseF64(s)
-	if err != nil || ret > math.MaxFloat32 || ret < -math.MaxFloat32 {
+	/* range check after rounding to float32, as strconv.ParseFloat(s, 32) does */
+	if err != nil || math.IsInf(float64(float32(ret)), 0) {
 		return error_mismatch(node, ctx, float32Type)
 	}
 
